@@ -23,6 +23,21 @@ FINDINGS_PATH = os.path.join(HERE, 'known_findings.txt')
 VENV_PY = '/venv/bin/python'
 
 
+def count_worker(key):
+    """phase 1: explore only, return the number of obligation instances (used to balance the discharge shards)"""
+    try:
+        from pyvc.verify import Executor, explore
+        src = Source()
+        reg = registry.load()
+        ex = Executor(src, reg.contracts, reg.models, reg.spec_funcs(src))
+        ex.opq_model_table = reg.opq_models
+        ex.spec_ufs = reg.spec_ufs
+        res, _ = explore(ex, key, reg.contracts[key])
+        return key, sum(len(pr.obligations) for pr in res)
+    except Exception:
+        return key, 1
+
+
 def worker(job):
     key, tier, shard, nshards = job
     import z3
@@ -48,19 +63,19 @@ def worker(job):
         out['unsupported'] = unsup
         out['paths'] = len(res)
         timeout_ms = 10000 if tier == 'quick' else 60000
-        portfolio = 'fallback' if tier == 'quick' else 'all'
+        seen_per_key = {}
         ob_index = 0
         for pr in res:
             if pr.error:
                 continue
-            # path feasibility probe (vacuity guard): the longest hypothesis set of the path
-            if pr.obligations:
+            # vacuity guard: some path that reaches an exit must have a satisfiable hypothesis set (probed by shard 0 until
+            # three such paths are found; probing every path would cost more than the proof itself)
+            feas = 'not-probed'
+            if shard == 0 and out['feasible_paths'] < 3 and pr.obligations and pr.outcome and pr.outcome[0] in ('normal', 'raise'):
                 longest = max(pr.obligations, key=lambda o: len(o.hyps))
                 feas = hyps_consistent(longest)
-            else:
-                feas = 'none'
-            if feas != 'unsat' and pr.outcome and pr.outcome[0] in ('normal', 'raise'):
-                out['feasible_paths'] += 1
+                if feas != 'unsat':
+                    out['feasible_paths'] += 1
             for ob in pr.obligations:
                 ob_index += 1
                 if ob_index % nshards != shard:
@@ -68,6 +83,10 @@ def worker(job):
                 def on_model(m, pr=pr):
                     return {'inputs': concrete_inputs(pr.inputs, m, pr_old_heap(pr)),
                             'model': {str(d): str(m[d])[:200] for d in list(m.decls())[:60]}}
+                # thorough: the first 2 path instances of every obligation key go to all three solvers (agreement check),
+                # the others to z3 with cvc5 / z3-4.8 as fall-backs like in the quick tier
+                seen_per_key[ob.key] = seen_per_key.get(ob.key, 0) + 1
+                portfolio = 'all' if (tier == 'thorough' and seen_per_key[ob.key] <= 2) else 'fallback'
                 r = discharge(ob, timeout_ms=timeout_ms, portfolio=portfolio, on_model=on_model)
                 rec = {'key': ob.key, 'kind': ob.kind, 'status': r['status'], 'solver': r['solver'], 'seconds': round(r['seconds'], 4),
                        'by': r['by'], 'line': ob.line, 'aux': ob.aux, 'info': ob.info, 'case': pr.case, 'path': pr.prefix,
@@ -171,10 +190,31 @@ def check_property(prop, tier, seed, relock=False):
         print(f'CHECKER-ERROR property={prop}: no contracts registered')
         return 3
     nproc = int(os.environ.get('PYVC_JOBS', '16'))
-    nshards = 1 if len(keys) > 16 else (2 if len(keys) > 8 else (4 if len(keys) > 3 else 8))
-    jobs = [(k, tier, sh, nshards) for k in keys for sh in range(nshards)]
-    with mp.Pool(min(nproc, max(1, len(jobs)))) as pool:
-        shard_results = pool.map(worker, jobs, chunksize=1) if keys else []
+    shard_results = []
+    if keys:
+        # a worker that dies (solver crash) must not hang the check: ProcessPoolExecutor reports a broken pool
+        from concurrent.futures import ProcessPoolExecutor
+        from concurrent.futures.process import BrokenProcessPool
+        try:
+            with ProcessPoolExecutor(max_workers=nproc, mp_context=mp.get_context('fork')) as pool:
+                # phase 1: obligation counts per function; phase 2: discharge shards sized to about total / (1.5 * processes)
+                counts = dict(pool.map(count_worker, keys))
+                jobs = []
+                for k in sorted(keys, key=lambda k_: -counts.get(k_, 1)):
+                    ns = int(min(nproc, max(1, -(-counts.get(k, 1) // 75))))     # about 75 obligation instances per shard
+                    jobs.extend((k, tier, sh, ns) for sh in range(ns))
+                futs = [pool.submit(worker, j) for j in jobs]
+                for j, fu in zip(jobs, futs):
+                    try:
+                        shard_results.append(fu.result(timeout=3000))
+                    except BrokenProcessPool:
+                        raise
+                    except Exception as e:
+                        shard_results.append({'key': j[0], 'obligations': [], 'unsupported': [], 'paths': 0, 'feasible_paths': 0,
+                                              'error': f'worker failed: {e!r}', 'span': None, 'seconds': 0})
+        except BrokenProcessPool as e:
+            print(f'CHECKER-ERROR property={prop} a worker process died ({e!r}); nothing decided')
+            return 3
     merged = {}
     for r in shard_results:
         m_ = merged.get(r['key'])
@@ -182,6 +222,7 @@ def check_property(prop, tier, seed, relock=False):
             merged[r['key']] = r
         else:
             m_['obligations'].extend(r['obligations'])
+            m_['feasible_paths'] = max(m_['feasible_paths'], r['feasible_paths'])
             m_['unsupported'] = sorted(set(m_['unsupported']) | set(r['unsupported']))
             m_['error'] = m_['error'] or r['error']
             m_['seconds'] = max(m_.get('seconds') or 0, r.get('seconds') or 0)
@@ -321,6 +362,11 @@ def check_property(prop, tier, seed, relock=False):
             checker_errors.append(f"axiom validation failed (the trusted base does not match the installed library): {v}")
     except Exception as e:
         checker_errors.append(f'axiom validation did not run: {e!r}')
+    # ---- thorough tier: self-validation on scratch copies - the seeded changes of this property must be refuted, the harmless
+    #      refactors that touch it must stay quiet (reported in the evidence; they never change the verdict about the real tree)
+    selfcheck = None
+    if tier == 'thorough' and src.root == '/repo/src/dliswriter' and not os.environ.get('PYVC_NO_SELFCHECK'):
+        selfcheck = run_selfcheck(prop)
     # ---- report
     discharged = sum(1 for a in agg.values() if a['status'] == 'discharged')
     for ln in known_lines:
@@ -360,6 +406,7 @@ def check_property(prop, tier, seed, relock=False):
             'explanation': reg.explanations.get(prop, ''),
             'bounded_standins': (extra_info or {}).get('bounded', []),
             'axiom_validation': (axiom_info or {}).get('checks'),
+            'selfcheck': selfcheck,
             'extra': {k: v for k, v in (extra_info or {}).items() if k not in ('violations', 'errors', 'undecided', 'bounded')},
             'source_root': src.root,
         },
@@ -378,6 +425,42 @@ def check_property(prop, tier, seed, relock=False):
     if undecided or unsupported or missing:
         return 2
     return 0
+
+
+def run_selfcheck(prop):
+    import glob
+    import shutil
+    import tempfile
+    out = {'seeded': [], 'harmless': []}
+    def scratch_with(patch):
+        scr = tempfile.mkdtemp(prefix='self.', dir=os.environ.get('VERIF_SCRATCH', '/var/tmp'))
+        subprocess.run(['rsync', '-a', '--exclude', '.git', '--exclude', 'src/tests', '/repo/', scr + '/repo/'], check=True)
+        ok = subprocess.run(['patch', '-p1', '-s', '-d', scr + '/repo', '-i', patch], capture_output=True).returncode == 0
+        return scr, ok
+    def run(scr):
+        env = dict(os.environ)
+        env['PYVC_SRC'] = scr + '/repo/src/dliswriter'
+        env['PYVC_NO_SELFCHECK'] = '1'
+        p_ = subprocess.run([sys.executable, '-m', 'pyvc.cli', prop, '--tier', 'quick'], capture_output=True, text=True, cwd=HERE, env=env, timeout=3000)
+        return p_.returncode
+    for d in sorted(glob.glob(os.path.join(HERE, 'seeded', prop + '-*'))):
+        scr, ok = scratch_with(os.path.join(d, 'patch.diff'))
+        try:
+            out['seeded'].append({'id': os.path.basename(d), 'patch_applies': ok, 'check_exit': run(scr) if ok else None})
+        finally:
+            shutil.rmtree(scr, ignore_errors=True)
+    for d in sorted(glob.glob(os.path.join(HERE, 'harmless', '*.diff'))):
+        props = open(d[:-5] + '.props').read().split()
+        if prop not in props:
+            continue
+        scr, ok = scratch_with(d)
+        try:
+            out['harmless'].append({'id': os.path.basename(d)[:-5], 'patch_applies': ok, 'check_exit': run(scr) if ok else None})
+        finally:
+            shutil.rmtree(scr, ignore_errors=True)
+    out['seeded_refuted'] = sum(1 for x in out['seeded'] if x['check_exit'] == 1)
+    out['harmless_quiet'] = sum(1 for x in out['harmless'] if x['check_exit'] == 0)
+    return out
 
 
 def main():
